@@ -70,7 +70,17 @@ def observe(formula, data_names, ctx_names, cform="dict"):
         return {"ok": False, "other": type(e).__name__ + ": " + str(e)[:100]}
     spec = mm.model_spec
     back = {v: k for k, v in COLNAME.items()}
-    return {"ok": True, "names": list(spec.column_names), "cells": numpy.asarray(mm, dtype=float).T.tolist(),
+    # the same right-hand side in a two-sided formula, re-materialized from the attached specs with an override and the same context
+    reuse = None
+    try:
+        df2 = frame_for(data_names)
+        df2["y0"] = [1.0, 2.0, 3.0]
+        first = model_matrix("y0 ~ " + formula, df2, context=c)
+        again = first.model_spec.get_model_matrix(df2, context=c, output="numpy")
+        reuse = numpy.asarray(again.rhs, dtype=float).T.tolist()
+    except Exception as e:  # noqa
+        reuse = "EXC:" + type(e).__name__ + ": " + str(e)[:80]
+    return {"ok": True, "names": list(spec.column_names), "cells": numpy.asarray(mm, dtype=float).T.tolist(), "reuse_cells": reuse,
             "sources": {back.get(base_name(v), base_name(v)): (v.source or "None") for v in sorted(spec.variables, key=lambda v: -len(str(v)))},
             "by_source": {str(k): sorted({back.get(base_name(v), base_name(v)) for v in vs}) for k, vs in spec.variables_by_source.items()},
             "required_after": sorted({back.get(base_name(v), base_name(v)) for v in spec.required_variables})}
@@ -105,6 +115,8 @@ def replay_resolve(case):
         for k in ("names", "cells", "required_after"):
             if obs[k] != exp[k]:
                 bad.append({**base, "why": f"{what}: {k}", "observed": obs[k], "expected": exp[k]})
+        if obs.get("reuse_cells") != exp["cells"]:
+            bad.append({**base, "why": f"{what}: two-sided specs re-materialized with an override and the same context", "observed": obs.get("reuse_cells"), "expected": exp["cells"]})
         if {k: v for k, v in obs["sources"].items() if k in exp["sources"]} != exp["sources"]:
             bad.append({**base, "why": f"{what}: reported source of each variable", "observed": obs["sources"], "expected": exp["sources"]})
         inv = {}
